@@ -526,5 +526,15 @@ func init() {
 		if !c.Expired() {
 			BFS(c, famD, 0)
 		}
+		// (e) size prediction under query schedules: SerializeSize / GetTotalCount queried after no /
+		// block / undo / every operation of a history with up to two undos; at the end of every
+		// history the prediction and the returned counts must equal the bytes produced
+		ne := pick(c, 4, 5)
+		c.Cov.Bound["E.Nmax"] = ne
+		c.Cov.Bound["E.size_query_schedules"] = "never, after blocks, after undos, always; undo budget 2"
+		if !c.Expired() {
+			BFS(c, &HistFamily{Nmax: ne, Insts: []InstCfg{{Kind: "pollard"}, {Kind: "pollard", SizeQ: "block"}, {Kind: "pollard", SizeQ: "undo"}, {Kind: "pollard", SizeQ: "all"}, {Kind: "map", Full: true, TR: 0}, {Kind: "map", Full: false, TR: 63, Mode: "even"}},
+				Or: HistOracle{Sizes: true, Prop: "C13"}, UndoBud: 2}, 0)
+		}
 	}
 }
